@@ -29,42 +29,42 @@ CHECKS = {
             "6/C09"),
     "C03": ("world", "exploration",
             "two real clients + local watchers in a synctest bubble on a simulated bus and a strict reference ledger; seeded scenarios x keyed schedules; payouts vs. last commonly enabled state",
-            "Whole-system simulation: real client.Client, real local watcher, simulated bus, strict ledger (verifies signatures, tree shapes, challenge period on the fake clock, pays once). Scenarios draw assets, balances, funding agreement, accepted/rejected payments, sub-channel open/pay/close, final vs. dispute settlement, who settles first; schedules come from keyed delays at every seam and yield points (hand-placed hooks plus automatically injected ones at the lock boundaries of a scratch copy). After both sides settled: account = before - agreed funding + balance in the last state both enabled (open sub-channels included), nothing held, conservation after every ledger mutation.",
+            "Whole-system simulation: real client.Client, real local watcher, simulated bus, strict ledger (verifies signatures, tree shapes, challenge period on the fake clock, pays once). Scenarios draw assets, balances, funding agreement, accepted/rejected payments, sub-channel open/pay/close, final vs. dispute settlement, who settles first; schedules come from keyed delays at every seam and yield points (hand-placed hooks plus automatically injected ones at the lock boundaries of a scratch copy). After both sides settled: account = before - agreed funding + balance in the last state both enabled (open sub-channels included), nothing held, conservation after every ledger mutation. Later additions: one side moving its whole balance into a sub-channel, the parent moving on between a sub-channel's final update and its settlement, callers that cancel their context the moment the state is enabled, a late return of Publish on the synchronous bus; a driver call that never returns is a violation.",
             "The strict ledger's contract (DESIGN 3.2) is a design decision; sub-channels only under no-app parents (the payment app forbids the funding update); a Settle call that fails because registered events of the tree have not all arrived is repeated by the driver, as a user would (counted as probe).",
             "6/C03"),
     "C04": ("world", "exploration",
             "as C03 plus an adversary registering outdated signed states at seeded instants (between/during updates, during sub-channel funding); outcome vs. honest client's Enabled stream",
-            "The peer's real client runs the off-chain protocol while an adversary goroutine registers earlier fully signed states from that client's own history at drawn instants; the honest side watches and settles when notified. Oracle: the concluded tree consists of states the honest client enabled, each at least as new as what it had enabled when its machine entered Registered, and its payout is at least its balances there. Two genuine defects are recorded as known findings, identified by history shape; every other violation is reported.",
+            "The peer's real client runs the off-chain protocol while an adversary goroutine registers earlier fully signed states from that client's own history at drawn instants; the honest side watches and settles when notified. Oracle: the concluded tree consists of states the honest client enabled, each at least as new as what it had enabled when its machine entered Registered, and its payout is at least its balances there. Two genuine defects are recorded as known findings, identified by history shape; every other violation is reported. Later additions: the instant a state is handed to the watcher is recorded by a pass-through wrapper (known-finding shape); a slow user decision on a sub-channel update while the dispute starts, impatient Settle contexts, cancel-on-enable; a driver call that never returns is a violation.",
             "Ledger latencies are bounded so that five refutation rounds fit into the challenge period (the protocol's own assumption). Refutations do not extend the challenge period in the reference ledger.",
             "6/C04"),
     "C06": ("world", "exploration",
             "two real clients in a synctest bubble; seeded update programs (sequential, concurrent, several channels) x keyed schedules and yield points (hand-placed hooks plus automatically injected ones at the lock boundaries of a scratch copy); agreement oracle over Enabled/SigAdded streams; token-configuration liveness",
-            "Programs of up to 15 Channel.Update calls from either side on 1-3 channels with keyed accept/reject decisions; strict runs check success => both enabled the proposed state fully signed, rejection => never enabled, no fork, version gap <= 1, accept => enabled, both Acting + probe update; the token configuration additionally forbids any timeout (a lost reply inside the client). Loss, duplication and short contexts run in a separate relaxed configuration that only checks the fully-signed invariant, as the property says.",
+            "Programs of up to 15 Channel.Update calls from either side on 1-3 channels with keyed accept/reject decisions; strict runs check success => both enabled the proposed state fully signed, rejection => never enabled, no fork, version gap <= 1, accept => enabled, both Acting + probe update; the token configuration additionally forbids any timeout (a lost reply inside the client). Loss, duplication and short contexts run in a separate relaxed configuration that only checks the fully-signed invariant, as the property says. Later additions: eager concurrent openings with an immediate first payment, late return of Publish, the invariant that a controller's in-memory state is the last state it enabled; a driver call that never returns is a violation.",
             "Exactly-once delivery in strict configurations is go-perun's stated assumption about the bus. Same-instant wake-ups are ordered by the Go runtime, not by the seed (measured by the determinism self-test: 0 diverging of 480 runs x 3 executions).",
             "6/C06"),
     "C10": ("persist", "fault_enumeration",
             "crash at every store-write boundary (enumerated) of seeded persisted-machine programs on memorydb and LevelDB; restore vs. before/after snapshots; failing writes in a relaxed configuration",
-            "For every operation of every generated program and every write/batch boundary inside it, the durable image at that boundary is restored with a fresh restorer (LevelDB: written to a new directory and reopened) and RestoreChannel/RestorePeer must equal the harness's own before- or after-snapshot of the interrupted operation, exactly the after-snapshot once the operation completed; every restored staging signature must verify for the restored staged state; other channels restore unchanged. Crash points are enumerated per program, programs are sampled.",
+            "For every operation of every generated program and every write/batch boundary inside it, the durable image at that boundary is restored with a fresh restorer (LevelDB: written to a new directory and reopened) and RestoreChannel/RestorePeer must equal the harness's own before- or after-snapshot of the interrupted operation, exactly the after-snapshot once the operation completed; every restored staging signature must verify for the restored staged state; other channels restore unchanged. Crash points are enumerated per program, programs are sampled. Later addition: in the write-error configuration a failed Sig is retried; once it returns nil the store must hold the own signature.",
             "Boundaries are individual Put/Delete calls and Batch.Apply (atomic), as the property states; torn batches and file-level LevelDB corruption are out of scope. Create/remove use two batches, so RestoreChannel and RestorePeer are judged independently between them.",
             "6/C10"),
     "C11": ("persist", "exploration",
             "seeded create/update/remove histories over up to 6 channels and a shared peer pool on both stores vs. a reference set of live channels, after every step",
-            "After every step of a history the restorer's four views (RestoreChannel, RestorePeer, ActivePeers, RestoreAll) and the raw key set are compared with a reference set of live channels with snapshots; operations on one channel must leave every other channel's restored value byte-identical.",
+            "After every step of a history the restorer's four views (RestoreChannel, RestorePeer, ActivePeers, RestoreAll) and the raw key set are compared with a reference set of live channels with snapshots; operations on one channel must leave every other channel's restored value byte-identical. Later additions: peers reachable under several backend ids; removals and creations whose first or second write fails (the half-removed/half-created channel is tolerated, every other channel must be unaffected).",
             "No crashes here (C10 covers them). LevelDB in 5% of runs.",
             "6/C11"),
     "C08": ("world", "exploration",
             "real two-party opening protocol under keyed schedules with scenario-controlled nonce shares; crafted single-condition proposal mutants injected by a raw peer (stranger or channel counterparty) at seeded instants",
-            "(a) honest openings of ledger and sub-channels with drawn parameters: both sides must hold byte-identical parameters, ID, participant order and the same fully signed version-0 state equal to the proposal; openings that differ only in one side's nonce share must yield different IDs. (b) 24 kinds of proposals that break one validity condition are re-serialised (decodability enforced) and delivered to a client with or without a matching parent: the proposal handler must not run, no channel may be created, the process must survive (a dead worker is replayed in a fresh process and reported with the panic site) and a later honest proposal must still succeed.",
-            "Virtual channel openings between three honest clients are not part of the honest workload yet; virtual proposals appear as mutants only. Invalid allocations are not decodable with the native serializer and therefore outside (b)'s quantifier there.",
+            "(a) honest openings of ledger and sub-channels with drawn parameters: both sides must hold byte-identical parameters, ID, participant order and the same fully signed version-0 state equal to the proposal; openings that differ only in one side's nonce share must yield different IDs. (b) 24 kinds of proposals that break one validity condition are re-serialised (decodability enforced) and delivered to a client with or without a matching parent: the proposal handler must not run, no channel may be created, the process must survive (a dead worker is replayed in a fresh process and reported with the panic site) and a later honest proposal must still succeed. Later additions: proposals racing an update in flight on the parent (judged at handler time against the parent's current state), own proposals that the proposer's client refuses followed by an honest one, overlapping openings; a driver call that never returns is a violation.",
+            "Honest virtual channel openings run in a three-client world (c08v); virtual proposal mutants are injected by a raw peer. Invalid allocations are not decodable with the native serializer and therefore outside (b)'s quantifier there.",
             "6/C08"),
     "C07": ("world", "exploration",
             "adversary edits the counterparty client's outgoing update / sub-channel funding / settlement / virtual-channel funding and settlement messages in flight and re-signs them; independent acceptability predicate; two- and three-party worlds",
-            "The adversary's node runs a real client for the honest protocol steps; at drawn points its outgoing update message is edited (40+ kinds of edits of state, signature, actor, locked sub-allocations, debit/credit distribution, index maps, signed virtual states), re-signed with its key, passed through the serializer and delivered. The honest side's handler accepts everything. Oracle: the honest client countersigned (acceptance message on the bus or state enabled) only if an independent predicate written from the property statement accepts the update for its class (ordinary / sub-channel funding / settlement / virtual funding / virtual settlement as hub).",
+            "The adversary's node runs a real client for the honest protocol steps; at drawn points its outgoing update message is edited (40+ kinds of edits of state, signature, actor, locked sub-allocations, debit/credit distribution, index maps, signed virtual states), re-signed with its key, passed through the serializer and delivered. The honest side's handler accepts everything. Oracle: the honest client countersigned (acceptance message on the bus or state enabled) only if an independent predicate written from the property statement accepts the update for its class (ordinary / sub-channel funding / settlement / virtual funding / virtual settlement as hub). Later additions: multi-message crafts (stale funding after a payment, an ordinary update for v+2 built on v behind the funding update, a settlement crediting a final state whose acceptance could not be sent), send errors on the bus, the invariant that the hub's in-memory state is the last state it enabled.",
             "The acceptability predicate (c07.go, c07v.go) is the trusted base. Three-party runs use the asynchronous bus only (the hub answers while holding a std mutex, rule R3).",
             "6/C07"),
     "C12": ("world", "exploration",
             "three-party world; seeded sequences of 1-6 decodable hostile envelopes (70 kinds over all request and response types, from the channel counterparty or a stranger) while the victim optionally holds its machine lock; process survival + bounded liveness probes on the fake clock",
-            "Hostile envelopes are built at struct level (dimension mismatches, nil/empty transactions, short/long parent lists and index maps, answers to requests never made or pending, correct signatures over inconsistent content), passed through the run's serializer (native or protobuf; an envelope that cannot be encoded or decoded is outside the quantifier) and delivered at drawn instants, also while the victim's machine lock is held for 3 s or 12 s by a pending own request. Oracle: the worker process survives (a dead worker is replayed in a fresh process and reported with the panic site), and after the last message and 30 simulated seconds every honest probe (Phase, Update with a 60 s context on the channel with an honest third client and on the channel with the adversary's address) returns within 120 simulated seconds with anything but 'could not lock the machine mutex'. A simulation stalled on a mutex inside go-perun is reported as lock-up as well.",
+            "Hostile envelopes are built at struct level (dimension mismatches, nil/empty transactions, short/long parent lists and index maps, answers to requests never made or pending, correct signatures over inconsistent content), passed through the run's serializer (native or protobuf; an envelope that cannot be encoded or decoded is outside the quantifier) and delivered at drawn instants, also while the victim's machine lock is held for 3 s or 12 s by a pending own request. Oracle: the worker process survives (a dead worker is replayed in a fresh process and reported with the panic site), and after the last message and 30 simulated seconds every honest probe (Phase, Update with a 60 s context on the channel with an honest third client and on the channel with the adversary's address) returns within 120 simulated seconds with anything but 'could not lock the machine mutex'. A simulation stalled on a mutex inside go-perun is reported as lock-up as well. Later additions: up to three honest virtual channels, locked-list mutations, embedded states with fewer balance columns, empty participant maps, two stateful adversaries around an abandoned or late-funded sub-channel opening, settlement proposals of the two parties 9.99-12 s apart, synchronous bus also in three-party runs.",
             "The adversary's address is served by a real client that answers probes honestly but never sync messages (two clients running the library's sync handler bounce replies forever; noted in DESIGN). Runs are capped at 20000 seam events.",
             "6/C12"),
     "C13": ("link", "fault_enumeration",
@@ -84,7 +84,7 @@ CHECKS = {
             "6/C16"),
     "C05": ("watcher", "exploration",
             "the real local watcher on a scripted adjudicator in a synctest bubble; enumerated short action histories x 3 schedules + seeded long histories with racing publishes/events/stops and yield points (hand-placed hooks plus automatically injected ones at the lock boundaries of a scratch copy); reference model with explicit may-zones",
-            "Driver actions (start watching parent/sub-channels, publish, inject registered/progressed/concluded events with any version, stop watching, refused stops) are issued with keyed gaps, partly concurrently, with self-caused events on or off and scripted Register failures. Every observable point gets a global number; the oracle checks must-refute, the shape of every Register call (newest parent in the admissible interval, one sub-state per locked sub-allocation in order, archived state for de-registered ones), no spurious registration, relay at-most-once/in-order/always for progressed and concluded, and the refused-stop contract. All histories up to length 5 (quick) / 6 (thorough) with one sub-channel and versions <= 2 are enumerated at 3 schedules each.",
+            "Driver actions (start watching parent/sub-channels, publish, inject registered/progressed/concluded events with any version, stop watching, refused stops) are issued with keyed gaps, partly concurrently, with self-caused events on or off and scripted Register failures. Every observable point gets a global number; the oracle checks must-refute, the shape of every Register call (newest parent in the admissible interval, one sub-state per locked sub-allocation in order, archived state for de-registered ones), no spurious registration, relay at-most-once/in-order/always for progressed and concluded, and the refused-stop contract. All histories up to length 5 (quick) / 6 (thorough) with one sub-channel and versions <= 2 are enumerated at 3 schedules each. Later additions: StopWatching(parent) racing StartWatchingSubChannel as an epilogue (exactly one of the two may succeed), scripted Subscribe failures.",
             "The reference model with its may-zones (oracle.go) is the trusted base; workload restrictions are listed in the evidence assumptions. Multi-ledger channels are excluded, as in the property.",
             "6/C05"),
     "C18": ("relay", "exploration",
@@ -94,7 +94,7 @@ CHECKS = {
             "6/C18"),
     "C20": ("multi", "exploration",
             "real multi.Adjudicator/Funder over scripted per-ledger backends in a bubble; keyed sub-call latencies (all completion orders), failures and stalls; call-log oracle; race-detector pass",
-            "Asset lists of 1-6 multi-ledger assets over up to 6 ledgers (repeated, reordered, unregistered, foreign ledgers registered), calls Register/Progress/Withdraw/Fund with and without an egoistic participant; from the call logs: every distinct ledger of the channel called exactly once and no other, success only if every forwarded call succeeded and every ledger was registered, the egoistic ledger's Fund starts only after all others returned nil, no dispatcher goroutine outlives the run.",
+            "Asset lists of 1-6 multi-ledger assets over up to 6 ledgers (repeated, reordered, unregistered, foreign ledgers registered), calls Register/Progress/Withdraw/Fund with and without an egoistic participant; from the call logs: every distinct ledger of the channel called exactly once and no other, success only if every forwarded call succeeded and every ledger was registered, the egoistic ledger's Fund starts only after all others returned nil, no dispatcher goroutine outlives the run. Later additions: the request's own content varies (secondary flag, participant index, zero balances per asset, sub-channel states); the caller may cancel its context while sub-calls are pending.",
             "The converse 'fails although nothing failed' is only counted (the statement says 'succeeds only if').",
             "6/C20"),
 }
